@@ -48,6 +48,58 @@ def make_panel(case, explicit_model=None, **extra):
     return p
 
 
+def decoy_case(case, which):
+    """A panel definition that differs from `case` in exactly ONE attribute (chosen by the generated integer `which`): one edge flag
+    flipped, or the length, width, radius, a series order, a ply angle or the offset changed.  Evaluated BEFORE the panel under test in
+    the same process, it exposes results that are kept at module level under a key that leaves that attribute out."""
+    d = dict(case)
+    names = sorted(case['flags'])
+    k = which % (len(names) + 6)
+    if k < len(names):
+        fl = dict(case['flags'])
+        fl[names[k]] = 0. if fl[names[k]] else 1.
+        d['flags'] = fl
+        return d, 'flag:' + names[k][0] + names[k][2:]
+    k -= len(names)
+    if k == 0:
+        d['a'] = case['a'] * 1.25
+        return d, 'a'
+    if k == 1:
+        d['b'] = case['b'] * 0.8
+        return d, 'b'
+    if k == 2 and case['model'] in ('cpanel', 'kpanel'):
+        d['r'] = case['r'] * 1.5
+        return d, 'r'
+    if k == 3:
+        d['m'] = case['m'] + 1
+        return d, 'm'
+    if k == 4:
+        L = dict(case['lam'])
+        L['stack'] = [L['stack'][0] + 30.] + list(L['stack'][1:])
+        d['lam'] = L
+        return d, 'ply-angle'
+    L = dict(case['lam'])
+    L['plyts'] = [t * 1.5 for t in L['plyts']]
+    d['lam'] = L
+    return d, 'thickness'
+
+
+def run_decoy(case, which, calls, ctx=None, **attrs):
+    """Evaluate `calls` (list of (method name, kwargs)) on the decoy of `case`; failures of the decoy itself are not judged here."""
+    dc, what = decoy_case(case, which)
+    d = make_panel(dc)
+    for k, v in attrs.items():
+        setattr(d, k, v)
+    for meth, kw in calls:
+        try:
+            getattr(d, meth)(**kw)
+        except Exception:       # noqa - the decoy is only there to leave traces; its own correctness is judged when it is the case
+            pass
+    if ctx is not None:
+        ctx.label('decoy-before:' + what)
+    return what
+
+
 def make_pdef(case):
     model = case['model']
     return rp.PDef(model, case['a'], case['b'], case['m'], case['n'], case['flags'],
